@@ -46,6 +46,7 @@ int sm4_cbc_padding_decrypt(const SM4_KEY *key, const uint8_t piv[16],
 	uint8_t block[16];
 	size_t len = sizeof(block);
 	int padding;
+	size_t i;
 
 	memcpy(iv, piv, 16);
 
@@ -69,6 +70,12 @@ int sm4_cbc_padding_decrypt(const SM4_KEY *key, const uint8_t piv[16],
 		return -1;
 	}
 	len -= padding;
+	for (i = len; i < sizeof(block); i++) {
+		if (block[i] != padding) {
+			error_print();
+			return -1;
+		}
+	}
 	memcpy(out + inlen - 16, block, len);
 	*outlen = inlen - padding;
 	return 1;
